@@ -3,6 +3,7 @@ package main
 // solve.go: SMT-LIB emission and the three-solver race.
 
 import (
+	"regexp"
 	"bytes"
 	"context"
 	"crypto/sha256"
@@ -245,6 +246,14 @@ func solveAll(items []*solveItem, timeoutS int, needTwo bool, workers int) {
 								}
 							}
 							tot += pr.timeS
+							if pr.status != "unsat" && pr.status != "sat" {
+								// retry 3: case split on which object a reference skolem of the goal is
+								ok, t3 := caseSplit(it, &po, to, fmt.Sprintf("%s.part%d", strings.TrimSuffix(it.file, ".smt2"), pi))
+								tot += t3
+								if ok {
+									pr.status, pr.solver = "unsat", "cases"
+								}
+							}
 							if pr.status != "unsat" {
 								all = false
 								o.Output += fmt.Sprintf("\n[split %d/%d] %s: %s", pi+1, len(parts), pr.status, truncate(part, 200))
@@ -270,6 +279,48 @@ func solveAll(items []*solveItem, timeoutS int, needTwo bool, workers int) {
 	}
 	close(ch)
 	wg.Wait()
+}
+
+var skRefRe = regexp.MustCompile(`g_sk_[A-Za-z0-9_]+![0-9]+`)
+
+// caseSplit proves goal under each of the cases sk == term (term from o.CaseTerms) and under the
+// case that sk differs from all of them, for the first reference-sorted skolem constant of the goal.
+func caseSplit(it *solveItem, po *Obligation, to int, base string) (bool, float64) {
+	if len(po.CaseTerms) == 0 {
+		return false, 0
+	}
+	sk := ""
+	for _, m := range skRefRe.FindAllString(po.Goal, -1) {
+		if it.w.constSort[m] == "Ref" {
+			sk = m
+			break
+		}
+	}
+	if sk == "" {
+		return false, 0
+	}
+	tot := 0.0
+	var neqs []string
+	cases := [][]string{}
+	for _, t := range po.CaseTerms {
+		cases = append(cases, []string{"(= " + sk + " " + t + ")"})
+		neqs = append(neqs, "(not (= "+sk+" "+t+"))")
+	}
+	cases = append(cases, neqs)
+	for ci, extra := range cases {
+		co := *po
+		co.Assumes = append(append([]string{}, po.Assumes...), extra...)
+		r := solve(it.w.script(&co, false), fmt.Sprintf("%s.case%d.smt2", base, ci), to, false)
+		tot += r.timeS
+		if r.status != "unsat" {
+			if r2 := solve(it.w.scriptOpt(&co, false, true), fmt.Sprintf("%s.case%d.noty.smt2", base, ci), to, false); r2.status == "unsat" {
+				tot += r2.timeS
+				continue
+			}
+			return false, tot
+		}
+	}
+	return true, tot
 }
 
 type solveItem struct {
